@@ -67,6 +67,8 @@ var c12Allow = []allowEntry{
 }
 
 func runC12(p *Prog, r *Report) {
+	dialStoresNoOptionState(p, r, "C12.17/dial-reads-options-at-use")
+	r.Floor("C12.17/dial-reads-options-at-use", "transport_dials.C12.17/dial-reads-options-at-use", 4)
 	closerLeaks(p, r, "C12.16/closer-leak", func(rel string) bool { return strings.HasPrefix(rel, "transport") || rel == "internal/core" || rel == "macat" })
 	r.Floor("C12.16/closer-leak", "e11.acquisitions.C12.16/closer-leak", 8)
 	{
